@@ -49,7 +49,7 @@ LEVEL = "exploration"
 
 METRICS = ("BRANCH", "LINE", "CHECKED")
 SUBSETS = tuple(tuple(m for i, m in enumerate(METRICS) if mask >> i & 1) for mask in range(8))
-QUICK_SAMPLE = 8          # quick tier: size-3 programs with shard_of(name, QUICK_SAMPLE) == 0
+QUICK_SAMPLE = 4          # quick tier: size-3 programs with shard_of(name, QUICK_SAMPLE) == 0
 
 # ------------------------------------------------------------------ C01 extra programs
 # (name, tags, module source).  Effects the progen grammar never produces: stdout, global and
@@ -82,6 +82,15 @@ EXTRAS = [
      "def f(a, b):\n    x = a < b\n    y = a == b\n    return (x, y, a in [b])\n"),
     ("while-compare", "while compare",
      "def f(a, b):\n    i = 0\n    while i < 3 and a != b:\n        i += 1\n    return i\n"),
+    ("slice", "display", "def f(a, b):\n    s = [1, 2, 3, a]\n    return s[1:3]\n"),
+    ("slice-loop", "display while",
+     "def f(a, b):\n    s = [a, b, 0]\n    n = 0\n    while s and n < 5:\n        s = s[1:]\n        n += 1\n    return n\n"),
+    ("super-call", "class attr call",
+     "class B:\n    def __init__(self):\n        self.v = 1\n\n\nclass A(B):\n    def __init__(self, w):\n"
+     "        super().__init__()\n        self.w = w\n\n\ndef f(a, b):\n    o = A(a)\n    return (o.v, o.w)\n"),
+    ("kwcall", "call", "def g(p, k=0):\n    return (p, k)\n\n\ndef f(a, b):\n    return g(a, k=b)\n"),
+    ("kwcall-after-comprehension", "listcomp call",
+     "def g(p, k=0):\n    return (p, k)\n\n\ndef f(a, b):\n    return g([v for v in (1, 2)], k=b)\n"),
 ]
 
 # ------------------------------------------------------------------ stdlib leg
@@ -231,7 +240,8 @@ def input_pairs(meta, source):
 def canon(x, depth=0):
     """Structural, type-tagged, NaN-aware, address-free description; never calls a logged dunder.
 
-    One-shot iterators / generators are drained (at most 64 items) and described by what was left."""
+    One-shot iterators are described by what is left in them (at most 64 items; generators, which cannot
+    be copied, are drained for that)."""
     from decimal import Decimal
     from fractions import Fraction
 
@@ -273,6 +283,11 @@ def canon(x, depth=0):
         return (t.__name__, getattr(x, "__qualname__", "?"))
     if hasattr(t, "__next__"):
         items, end = [], "end"
+        try:
+            import copy
+            x = copy.copy(x)     # list / tuple / str iterators: look at what is left without consuming it
+        except Exception:  # noqa: BLE001   (generators cannot be copied: they are drained)
+            pass
         try:
             for e in itertools.islice(x, 64):
                 items.append(canon(e, depth + 1))
@@ -388,9 +403,10 @@ class Attribution:
     Used only to *name* the construct in a fingerprint after a deviation has been established on the
     untouched classes."""
 
-    def __init__(self):
+    def __init__(self, user_dir=None):
         self.events = []
         self._saved = []
+        self.user_dir = user_dir
 
     def _wrap(self, owner, name, label):
         from mc import values
@@ -398,6 +414,7 @@ class Attribution:
 
         orig = owner.__dict__[name]
         events = self.events
+        user_dir = self.user_dir
 
         def wrapper(self_, *args, **kw):
             lab = label
@@ -408,16 +425,26 @@ class Attribution:
             its = [v for v in args[:2] if type(v).__name__.endswith("iterator")]
             hints = [operator.length_hint(v, -1) for v in its]
             raised = None
+            ucalls = []
+
+            def prof(frame, event, _arg):
+                # code of the module under test running inside a tracer / seeding callback
+                if event == "call" and user_dir and frame.f_code.co_filename.startswith(user_dir):
+                    ucalls.append(frame.f_code.co_name)
+
+            old_prof = sys.getprofile()
+            sys.setprofile(prof)
             try:
                 return orig(self_, *args, **kw)
             except BaseException as exc:  # noqa: BLE001
                 raised = type(exc).__name__
                 raise
             finally:
+                sys.setprofile(old_prof)
                 ops = [d for _r, d in values.OPLOG[start:]]
                 cons = [operator.length_hint(v, -1) for v in its] != hints
-                if ops or cons or raised:
-                    events.append((lab, ops, cons, raised))
+                if ops or cons or raised or ucalls:
+                    events.append((lab, ops, cons, raised, ucalls))
 
         wrapper.__name__ = name
         wrapper.__wrapped__ = orig
@@ -442,18 +469,24 @@ class Attribution:
     def construct_for(self, sig):
         kind, _, arg = sig.partition(":")
         if kind == "extra-operator":
-            for lab, ops, _c, _r in self.events:
+            for lab, ops, _c, _r, _u in self.events:
                 if arg in ops:
                     return lab
         elif kind == "iterator-consumed":
-            for lab, _o, cons, _r in self.events:
+            for lab, _o, cons, _r, _u in self.events:
                 if cons:
                     return lab
         elif kind in ("raises-only-instrumented", "exception-differs"):
             want = arg.split("->")[-1]
-            for lab, _o, _c, raised in reversed(self.events):
+            for lab, _o, _c, raised, _u in reversed(self.events):
                 if raised == want:
                     return lab
+        if kind in ("return-differs", "stdout-differs", "state-differs", "exception-differs",
+                    "raises-only-instrumented"):
+            # code of the module under test that ran inside a callback (property, __getattr__, ...)
+            for lab, _o, _c, _r, ucalls in self.events:
+                if ucalls:
+                    return lab + "-runs-user-code"
         return None
 
 
@@ -506,13 +539,15 @@ def program_family(source):
                 add("WITH")
             elif n in ("BINARY_SLICE", "STORE_SLICE"):
                 add("SLICE")
+            elif n == "LOAD_SUPER_ATTR":
+                add("SUPER")
             if n not in ("CACHE", "EXTENDED_ARG"):
                 prev = n
     if not fam:
         return "straight-line"
     # distinctive features first: a deviation that is not attributed to a tracer callback is, in a small
     # program, almost always about them
-    strs = [x for x in fam if x in _STR_FUNCS] or [x for x in fam if x in ("COMPREHENSION", "WITH", "SLICE")]
+    strs = [x for x in fam if x in _STR_FUNCS] or [x for x in fam if x in ("COMPREHENSION", "WITH", "SLICE", "SUPER")]
     if strs:
         return "+".join(strs)
     if len(fam) > 3:
@@ -535,7 +570,12 @@ def load_plain(name, path):
 
     spec = importlib.util.spec_from_file_location(name, path)
     mod = importlib.util.module_from_spec(spec)
-    spec.loader.exec_module(mod)
+    sys.modules[name] = mod          # as the import system does (enum / dataclasses look the module up)
+    try:
+        spec.loader.exec_module(mod)
+    except BaseException:
+        sys.modules.pop(name, None)
+        raise
     return mod
 
 
@@ -546,9 +586,16 @@ def subset_tag(subset):
 def mark(progress, *parts):
     """Progress marker in shared memory: what the forked child is about to do (read after a crash)."""
     if progress is not None:
+        import resource
+        import time
+
         b = "|".join(parts).encode("utf-8", "replace")[:500]
         progress.seek(0)
         progress.write(b + b"\0" * (512 - len(b)))
+        # CPU budget of the step (load independent): a hang ends in SIGXCPU instead of blocking the check
+        budget = CALL_CPU_BUDGET if parts[-1] == "call" else ITEM_CPU_BUDGET
+        _soft, hard = resource.getrlimit(resource.RLIMIT_CPU)
+        resource.setrlimit(resource.RLIMIT_CPU, (int(time.process_time()) + 1 + budget, hard))
 
 
 def check_program(col, scratch, name, source, meta, pairs=None, sample_every=0, skip=frozenset(),
@@ -645,6 +692,20 @@ def check_program(col, scratch, name, source, meta, pairs=None, sample_every=0, 
             dcp = getattr(getattr(sut._hook, "hook", None), "_dynamic_constant_provider", None)  # noqa: SLF001
             if dcp is not None and len(dcp._pool) > 0:  # noqa: SLF001
                 col.count("effect_SEEDING")
+        # a deviation that shows for every input pair of the menu does not depend on the values
+        if len(pairs) > 1:
+            groups = {}
+            for entry in pending:
+                groups.setdefault((entry[5], tuple(entry[6])), []).append(entry)
+            pending = []
+            for grp in groups.values():
+                if len(grp) == len(pairs) or (len(pairs) >= 6 and 3 * len(grp) >= 2 * len(pairs)):
+                    word = "any" if len(grp) == len(pairs) else "most"
+                    idx, la, lb, _ca, _cb, sig, showing, p = grp[0]
+                    pending.append((idx, la, lb, word, word, sig, showing, p))
+                else:
+                    pending.extend(grp)
+            pending.sort(key=lambda e: e[0])
         # attribution + reporting (extra calls happen after every compared call of this program)
         fam = None
         for idx, la, lb, ca, cb, sig, showing, p in pending:
@@ -652,15 +713,26 @@ def check_program(col, scratch, name, source, meta, pairs=None, sample_every=0, 
             construct = None
             sut = live.get(best if lab != "any" else SUBSETS[-1]) or next(iter(live.values()))
             mark(progress, subset_tag(best if lab != "any" else SUBSETS[-1]), la, lb, "call")
-            with Attribution() as attr:
+            with Attribution(user_dir=scratch) as attr:
                 observe(sut.module, la, lb, tracer=sut.tracer)
                 construct = attr.construct_for(sig)
+                eaten = attr.construct_for("iterator-consumed")
+            if eaten and sig.split(":")[0] in ("return-differs", "exception-differs", "state-differs",
+                                               "raises-only-instrumented"):
+                # the callback advanced a one-shot iterator argument (both runs end with it exhausted, so the
+                # post-state alone does not show it); what follows is downstream of that one deviation
+                sig, construct = "iterator-consumed", eaten
             if construct is None:
                 fam = fam or program_family(source)
                 construct = fam
-            fp = f"C01|{lab}|{construct}|{ca},{cb}|{sig}"
+            classes = f"{ca},{cb}"
+            if sig.startswith("extra-operator"):
+                # which operand carried the operator does not distinguish defects: name the user classes only
+                users = sorted({c_ for c_ in (ca, cb) if c_.startswith("user")})
+                classes = "+".join(users) or classes
+            fp = f"C01|{lab}|{construct}|{classes}|{sig}"
             col.violation(fp, describe(name, source, la, lb, lab, sig, p),
-                          dict(data0, a=la, b=lb, expect=fp), rank=rank0 + idx)
+                          dict(data0, a=la, b=lb, expect=fp, full_menu=ca in ("any", "most")), rank=rank0 + idx)
     finally:
         for sut in live.values():
             with contextlib.suppress(Exception):
@@ -792,8 +864,16 @@ def check_stdlib(col, scratch, modname, skip=frozenset(), progress=None):
 
 # ------------------------------------------------------------------ job list / shards
 def extras():
+    from mc import progen
+
     out = []
-    for label, tags, src in EXTRAS:
+    entries = list(EXTRAS)
+    # every condition of the grammar once in the smallest program that has it (the quick tier only samples
+    # the size-3 programs in which the rich conditions first appear)
+    for i, (cond, tags, _rich) in enumerate(progen.CONDS):
+        entries.append((f"cond-{i:02d}", " ".join(sorted(tags | {"if"})),
+                        f"def f(a, b):\n    x = 0\n    if {cond}:\n        x = 1\n    return x\n"))
+    for label, tags, src in entries:
         meta = {"constructs": sorted(tags.split()), "size": src.count("\n"), "depth": None, "kind": "extra",
                 "func": "f", "params": ("a", "b"), "executable": True, "body": src.split("\n")}
         out.append((f"extra_{label.replace('-', '_')}", src, meta))
@@ -818,28 +898,50 @@ def job_list(tier):
     return jobs, n_sampled
 
 
-def isolated(col, fn, args, crash_info):
-    """Run ``fn(sub_collector, *args, skip=..., progress=...)`` in a forked child and merge its collector.
+def warm_up():
+    """Import everything a forked child needs, once, in the (fresh) shard process."""
+    from mc import pyn
 
-    A child killed by a signal (the instrumented code crashed the interpreter) is a violation
-    ``interpreter-crash:<signal>`` for the metric subset / input named by the child's progress marker;
-    the work item is then repeated without that subset and its supersets.  ``crash_info(tag, la, lb,
-    phase)`` -> (construct, value classes, description, data, rank) for the violation record."""
+    pyn.reset_config()
+    import pynguin.instrumentation.machinery  # noqa: F401
+    import pynguin.instrumentation.tracer  # noqa: F401
+    by_label()
+
+
+JOB_TIMEOUT = 1800       # wall-clock backstop per work item (SIGALRM); the real limits are CPU budgets:
+ITEM_CPU_BUDGET = 240    # CPU seconds for importing / instrumenting one module (largest observed: ast, ~30 s)
+CALL_CPU_BUDGET = 20     # CPU seconds for one instrumented call (largest observed: well below 1 s)
+
+
+def isolated(col, items):
+    """Run work items in a forked child, one child for as many items as survive.
+
+    ``items``: list of ``(fn, args, crash_info)``; the child calls ``fn(sub_collector, *args, skip=...,
+    progress=...)`` for one item after the other and streams the collectors back.  A child killed by a
+    signal (the instrumented code crashed the interpreter, or hung until the alarm) is a violation
+    ``interpreter-crash:<signal>`` for the item it was working on and the metric subset / input named by
+    its progress marker; that item is then repeated, in a new child, without that subset and its supersets.
+    ``crash_info(tag, la, lb, phase)`` -> (construct, value classes, description, data, rank).
+    (fork + exit costs ~0.3 s of CPU on this machine, hence not one child per item.)"""
     import faulthandler
     import mmap
     import pickle
     import resource
     import signal
+    import struct
     import traceback
 
     from mc.ctx import Collector
 
+    nxt = 0
     skip = set()
-    for _attempt in range(len(SUBSETS) + 1):
+    crashes_here = 0
+    while nxt < len(items):
         progress = mmap.mmap(-1, 512)
         r, w = os.pipe()
         sys.stdout.flush()
         sys.stderr.flush()
+        me = os.getpid()
         pid = os.fork()
         if pid == 0:
             status = 0
@@ -847,44 +949,75 @@ def isolated(col, fn, args, crash_info):
                 os.close(r)
                 faulthandler.disable()
                 resource.setrlimit(resource.RLIMIT_CORE, (0, 0))
-                sub = Collector()
-                try:
-                    fn(sub, *args, skip=frozenset(skip), progress=progress)
-                    payload = pickle.dumps(("ok", sub))
-                except BaseException:  # noqa: BLE001
-                    payload = pickle.dumps(("err", traceback.format_exc()))
-                with os.fdopen(w, "wb") as fh:
-                    fh.write(payload)
+                out = os.fdopen(w, "wb")
+                for i in range(nxt, len(items)):
+                    if os.getppid() != me:
+                        break
+                    fn, args, _info = items[i]
+                    sub = Collector()
+                    mark(progress, "?", "-", "-", "harness")
+                    signal.alarm(JOB_TIMEOUT)
+                    try:
+                        fn(sub, *args, skip=frozenset(skip) if i == nxt else frozenset(), progress=progress)
+                        payload = pickle.dumps(("ok", sub))
+                    except BaseException:  # noqa: BLE001
+                        payload = pickle.dumps(("err", traceback.format_exc()))
+                    signal.alarm(0)
+                    out.write(struct.pack("<Q", len(payload)) + payload)
+                    out.flush()
+                out.close()
             except BaseException:  # noqa: BLE001
                 status = 3
             finally:
                 os._exit(status)
         os.close(w)
+        done_before = nxt
         with os.fdopen(r, "rb") as fh:
-            payload = fh.read()
-        _pid, status = os.waitpid(pid, 0)
-        if os.WIFEXITED(status) and os.WEXITSTATUS(status) == 0 and payload:
-            kind, obj = pickle.loads(payload)  # noqa: S301
-            if kind == "err":
-                raise RuntimeError("harness failure in isolated child:\n" + obj)
-            col.merge(obj)
+            while True:
+                head = fh.read(8)
+                if len(head) < 8:
+                    break
+                (n,) = struct.unpack("<Q", head)
+                payload = fh.read(n)
+                if len(payload) < n:
+                    break
+                kind, obj = pickle.loads(payload)  # noqa: S301
+                if kind == "err":
+                    with contextlib.suppress(OSError):
+                        os.kill(pid, signal.SIGKILL)
+                    os.waitpid(pid, 0)
+                    raise RuntimeError("harness failure in isolated child:\n" + obj)
+                col.merge(obj)
+                nxt += 1
+                skip = set()
+                crashes_here = 0
+                if os.getppid() == 1:
+                    with contextlib.suppress(OSError):
+                        os.kill(pid, signal.SIGKILL)
+                    os.waitpid(pid, 0)
+                    raise RuntimeError("the check's main process is gone")
+        _pid, status, usage = os.wait4(pid, 0)
+        col.count("child_cpu_ms", int((usage.ru_utime + usage.ru_stime) * 1000))
+        col.count("children_forked")
+        if os.WIFEXITED(status) and os.WEXITSTATUS(status) == 0 and nxt == len(items):
             return
         if not os.WIFSIGNALED(status):
-            raise RuntimeError(f"isolated child ended with status {status} and no result")
+            raise RuntimeError(f"isolated child ended with status {status} after {nxt - done_before} items")
         signame = signal.Signals(os.WTERMSIG(status)).name
+        died = "hang" if signame in ("SIGXCPU", "SIGALRM") else f"interpreter-crash:{signame}"
         marker = bytes(progress[:]).rstrip(b"\0").decode("utf-8", "replace").split("|")
-        if len(marker) != 4 or marker[0] in skip:
+        if len(marker) != 4 or marker[3] == "harness" or marker[0] in skip or crashes_here > len(SUBSETS):
             raise RuntimeError(f"isolated child killed by {signame} outside an instrumented step: {marker}")
         tag, la, lb, phase = marker
         crashed = next(ss for ss in SUBSETS if subset_tag(ss) == tag)
-        construct, classes, what, data, rank = crash_info(tag, la, lb, phase)
+        construct, classes, what, data, rank = items[nxt][2](tag, la, lb, phase)
         lab = "+".join(crashed) if crashed else "seeding-only"
-        col.violation(f"C01|{lab}|{construct}|{classes}|interpreter-crash:{signame}",
-                      f"{what}: the interpreter died with {signame} during the instrumented {phase} "
-                      f"with {lab} metrics (+ dynamic seeding)", data, rank=rank)
+        col.violation(f"C01|{lab}|{construct}|-|{died}",
+                      f"{what}: the interpreter died with {signame} ({classes}) during the instrumented {phase} "
+                      f"with {lab} metrics (+ dynamic seeding); the plain module runs normally", data, rank=rank)
         col.count("interpreter_crashes")
+        crashes_here += 1
         skip |= {subset_tag(ss) for ss in SUBSETS if set(crashed) <= set(ss)}
-    raise RuntimeError("isolated child keeps crashing")
 
 
 def program_crash_info(name, source, meta):
@@ -917,16 +1050,18 @@ def shard(col, tier, k, nshards):
     from mc import progen
 
     sys.dont_write_bytecode = True
+    warm_up()
     scratch = tempfile.mkdtemp(prefix="c01_", dir="/dev/shm" if os.path.isdir("/dev/shm") else None)
     sys.path.insert(0, scratch)
     try:
         jobs, _n = job_list(tier)
         first = True
+        items = []
         for i, job in enumerate(jobs):
             if i % nshards != k:
                 continue
             if job[0] == "stdlib":
-                isolated(col, check_stdlib, (scratch, job[1]), stdlib_crash_info(job[1]))
+                items.append((check_stdlib, (scratch, job[1]), stdlib_crash_info(job[1])))
                 continue
             _kind, name, source, meta = job
             if first:
@@ -949,9 +1084,10 @@ def shard(col, tier, k, nshards):
                     col.distinct("constructs_evidenced", t)
             for op in progen.opcodes(code):
                 col.distinct("opcodes", op)
-            isolated(col, check_program, (scratch, name, source, meta, None,
+            items.append((check_program, (scratch, name, source, meta, None,
                                           97 if meta["kind"] == "grammar" else 13),
-                     program_crash_info(name, source, meta))
+                          program_crash_info(name, source, meta)))
+        isolated(col, items)
     finally:
         with contextlib.suppress(ValueError):
             sys.path.remove(scratch)
@@ -980,8 +1116,10 @@ def run(ctx):
                 f"only {c.get('stdlib_modules')} of {n_std} stdlib modules importable under a new name "
                 f"({ctx.col.notes.get('stdlib_plain_import_failed_example')})")
     per = {subset_tag(s): c.get("evaluations_" + subset_tag(s), 0) for s in SUBSETS}
-    if not any("instrumentation-raises" in fp for fp in ctx.col.violations):
-        ctx.require(len(set(per.values())) == 1 and per["N"] > 0, f"metric subsets evaluated unevenly: {per}")
+    ctx.require(all(v > 0 for v in per.values()), f"a metric subset was never evaluated: {per}")
+    if not any("instrumentation-raises" in fp for fp in ctx.col.violations) and not c.get("interpreter_crashes"):
+        # (a subset whose import raises or that crashed the interpreter is reported and has no calls)
+        ctx.require(len(set(per.values())) == 1, f"metric subsets evaluated unevenly: {per}")
     for key in ("effect_LINE", "effect_BRANCH", "effect_CHECKED", "effect_SEEDING", "plain_calls_with_user_operators",
                 "plain_calls_with_stdout", "stdlib_smoke_calls"):
         ctx.require(c.get(key, 0) > 0, f"vacuous: {key} never observed")
@@ -996,7 +1134,7 @@ def run(ctx):
         "tier": tier, "programs": n_prog, "grammar_bound": "size<=2 depth<=2 all" + (
             f" + size-3 programs with shard_of(name,{QUICK_SAMPLE})==0 ({n_sampled} of {progen.count(3, 2)[3]})"
             if ctx.quick else "; size<=3 depth<=2 all"),
-        "seeds": len(progen.seeds()), "extras": len(EXTRAS), "stdlib_modules": n_std,
+        "seeds": len(progen.seeds()), "extras": len(extras()), "stdlib_modules": n_std,
         "sharp_values": SHARP, "cross_pairs": len(CROSS), "metric_subsets": 8})
     ctx.note("evaluations_per_subset", per)
     ctx.exhaustive = not ctx.quick
@@ -1016,16 +1154,17 @@ def replay(ctx, data):
     import tempfile
 
     sys.dont_write_bytecode = True
+    warm_up()
     scratch = tempfile.mkdtemp(prefix="c01r_", dir="/dev/shm" if os.path.isdir("/dev/shm") else None)
     sys.path.insert(0, scratch)
     try:
         if data.get("kind") == "stdlib":
-            isolated(ctx.col, check_stdlib, (scratch, data["module"]), stdlib_crash_info(data["module"]))
+            isolated(ctx.col, [(check_stdlib, (scratch, data["module"]), stdlib_crash_info(data["module"]))])
         else:
             meta = {"constructs": data.get("meta_constructs", []), "size": data.get("size"), "kind": "replay"}
-            pairs = None if data.get("a") is None else [(data["a"], data["b"])]
-            isolated(ctx.col, check_program, (scratch, data["name"], data["source"], meta, pairs, 0),
-                     program_crash_info(data["name"], data["source"], meta))
+            pairs = None if data.get("a") is None or data.get("full_menu") else [(data["a"], data["b"])]
+            isolated(ctx.col, [(check_program, (scratch, data["name"], data["source"], meta, pairs, 0),
+                                program_crash_info(data["name"], data["source"], meta))])
     finally:
         with contextlib.suppress(ValueError):
             sys.path.remove(scratch)
